@@ -626,7 +626,7 @@ def audit(w, ctx, actor=None, discovery=False, before=None):
             if before is not None and k in before[s]:
                 ctx.add('removal', 'left-%s-%s' % (before[s][k], _kindname(k)),
                         'server %d: %s is deleted' % (s, k), 'it is still there')
-            else:
+            elif not any(p.sig['check'] == 'refusal' for p in ctx.problems):
                 ctx.add('owned-lists', 'unexpected-%s-in-server' % _kindname(k),
                         'server %d: instances %s' % (s, sorted(want)), 'also %s' % k)
     for mi, m in enumerate(w.mgrs):
@@ -840,7 +840,9 @@ def _step(w, ev, ctx):
                 if 'existing' in exp.allowed:
                     if rk not in exp.existing:
                         ctx.add('owned-lists', 'add-returned-other-instance', 'one of %s' % exp.existing, rk)
-                elif 'created' in exp.allowed:
+                elif 'created' in exp.allowed and rk not in model.owned(s, mid, exp.new.kind):
+                    # (returning one of the manager's owned instances instead of creating one keeps
+                    # lists and server in agreement: when exactly that happens is not part of C18)
                     ctx.add('owned-lists', 'add-created-nothing', 'a new %s %r' % (exp.new.kind, exp.new.name),
                             _describe(res))
         audit(w, ctx, mi, before=before)
